@@ -46,10 +46,14 @@ class Quiescence(Monitor):
             ok = False
         if ok:
             return []
+        ri = sim.h.get("rerun_info") or {}
         return [
             {
                 "kind": "stuck",
                 "sig": {
+                    "rerun_default": ri.get("default"),
+                    "rerun_had_failed_terminal_task": ri.get("failed_terminal_task"),
+                    "rerun_after_fail_command": ri.get("fail_command_terminal"),
                     "status": status,
                     "after_rerun": bool(sim.h["reruns"]),
                     "after_partial_join_rerun": sim.h["rejoin"],
